@@ -28,6 +28,18 @@ PROPS = {
         "timeout": 900,
         "timeout_thorough": 3600,
     },
+    "C18": {
+        "harness": "vh-types",
+        "level_text": "Kernel-checked theorem about an executable Lean model of tpl_pattern_match (first candidate wins, arrays / table<K,V> / parameterless functions descend, a union pattern matches the whole target) and instantiate_type_generic with literal widening: for every parameter list without optional patterns, every assignment of argument components and every return type over the parameters' template variables, calling with the instances infers the return type with the (literal-widened) components substituted; the optional pattern `T?` is covered by a witness of the current behaviour. The model is compared with the inferred type of `local r = f(arg...)` on generated calls every run, and an independent oracle (declared return type with the bindings substituted, read through the real annotation analysis) is evaluated on the implementation.",
+        "level_note": "Partial by the scope of the property: overload resolution, conditional / mapped generics, variadics, constraints, class generics and string templates are outside the model; the template family is identity, T[] -> T, T -> T[], pair -> table<T,U>, table<K,V> -> V / K, T? -> T, fun(): T -> T, T[][] -> T[]. Trusted: Lean kernel, harness serialiser, differential run as the tie.",
+        "trusted_base": TY_TB,
+        "assumptions": [
+            "arguments are variables annotated with `---@type`, or literal expressions for the identity template",
+            "template parameters are not `const`",
+        ],
+        "timeout": 900,
+        "timeout_thorough": 3600,
+    },
 }
 
 HOOK_COMMITS = []
